@@ -369,7 +369,7 @@ func (p *Parser) parseSelect(stmt *SelectStatement) error {
 		// a unary minus (at the start, after an operator, a parenthesis, a comma or a keyword) is written
 		// next to its operand: "a > -b", not "a > - b", which the expression validator takes for two operators
 		afterUnaryMinus := false
-		prevType := TokenEOF
+		prevType, prevPos := TokenEOF, -2
 
 		// 设置最大表达式长度，防止无限循环
 		maxExprParts := 100
@@ -455,7 +455,17 @@ func (p *Parser) parseSelect(stmt *SelectStatement) error {
 				}
 			}
 			afterUnaryMinus = currentToken.Type == TokenMinus && !endsOperand(prevType)
-			prevType = currentToken.Type
+			// "<>" arrives as the two tokens < and >: written next to each other they are the SQL
+			// spelling of !=, which is how every evaluator reads the operator
+			if written := strings.TrimRight(expr.String(), " "); currentToken.Type == TokenGT && prevType == TokenLT && currentToken.Pos == prevPos+1 && strings.HasSuffix(written, "<") {
+				joined := strings.TrimSuffix(written, "<") + "!="
+				expr.Reset()
+				expr.WriteString(joined)
+				prevType, prevPos = TokenNE, currentToken.Pos
+				currentToken = p.lexer.NextToken()
+				continue
+			}
+			prevType, prevPos = currentToken.Type, currentToken.Pos
 			expr.WriteString(currentToken.Value)
 			currentToken = p.lexer.NextToken()
 		}
@@ -521,6 +531,7 @@ func (p *Parser) parseWhere(stmt *SelectStatement) error {
 	// Set max iterations limit to prevent infinite loops
 	maxIterations := 100
 	iterations := 0
+	whereLtPos := -2
 
 	for {
 		iterations++
@@ -536,6 +547,16 @@ func (p *Parser) parseWhere(stmt *SelectStatement) error {
 			tok.Type == TokenHAVING || tok.Type == TokenLIMIT || tok.Type == TokenWITH ||
 			tok.Type == TokenOrder {
 			break
+		}
+		// "<>" (the two tokens < and > next to each other) is the SQL spelling of !=
+		if tok.Type == TokenGT && whereLtPos >= 0 && tok.Pos == whereLtPos+1 && len(conditions) > 0 && conditions[len(conditions)-1] == "<" {
+			conditions[len(conditions)-1] = "!="
+			whereLtPos = -2
+			continue
+		}
+		whereLtPos = -2
+		if tok.Type == TokenLT {
+			whereLtPos = tok.Pos
 		}
 		switch tok.Type {
 		case TokenIdent, TokenNumber, TokenQuotedIdent:
